@@ -979,7 +979,7 @@ func genC17Tunnel(c *ctx) {
 	for k := 0; k < c17NKinds; k++ {
 		forced = append(forced, []int{k}, []int{k, c17Right}, []int{c17Right, k}, []int{k, c17Right, c17Right})
 	}
-	nSeq := c.pick(220, 4000)
+	nSeq := c.pick(500, 6000)
 	seeds := make([]int64, nSeq)
 	for i := range seeds {
 		seeds[i] = c.rng.Int63()
@@ -1008,7 +1008,7 @@ func genC17Tunnel(c *ctx) {
 	}
 
 	// 3. racy scenarios
-	nRacy := c.pick(250, 5000)
+	nRacy := c.pick(600, 8000)
 	rs := make([]int64, nRacy)
 	for i := range rs {
 		rs[i] = c.rng.Int63()
@@ -1026,7 +1026,7 @@ func genC17Tunnel(c *ctx) {
 	}
 
 	// 4. client
-	nCl := c.pick(60, 600)
+	nCl := c.pick(80, 800)
 	cases := make([]*c17ClientCase, nCl)
 	cs := make([]int64, nCl)
 	for i := range cases {
